@@ -31,7 +31,7 @@ func (p *Program) verifyFunctionOpt(f *ssa.Function, ct *Contract, sweep, refute
 	vc.refute = refute
 	startTerms, startTime := termCount, time.Now()
 	termBudgetCheck = func() {
-		if termCount-startTerms > 3000000 || time.Since(startTime) > 120*time.Second {
+		if termCount-startTerms > 1500000 || time.Since(startTime) > 120*time.Second {
 			panic(fmt.Sprintf("resource budget exceeded while generating obligations (%d terms, %.0fs): the function is outside what the engine can decide", termCount-startTerms, time.Since(startTime).Seconds()))
 		}
 	}
@@ -211,6 +211,10 @@ func (p *Program) verifyFunctionOpt(f *ssa.Function, ct *Contract, sweep, refute
 			// reachability of the normal exit (a proof over an unreachable exit is vacuous)
 			vc.obls = append(vc.obls, &Obligation{Name: p.shortName(f) + "/cover/exit-reachable", Kind: "cover", Props: ct.allProps(), Goal: TFalse, Reach: st.Reach, NFacts: len(vc.facts), Fn: f.String(), Expect: "sat"})
 		}
+	}
+	if n := len(vc.obls) * len(vc.facts); n > 4000000 {
+		// rendering and solving cost grows with obligations x assumptions; the largest function on the pinned tree is at 0.7 M
+		panic(fmt.Sprintf("resource budget exceeded: %d obligations x %d assumptions: the function is outside what the engine can decide", len(vc.obls), len(vc.facts)))
 	}
 	return vc, nil
 }
